@@ -193,26 +193,27 @@ theorem C12_refines_source (c : Cfg) (all : List Int) (evs : List Event) :
   exact h.seq
 
 /-- The cancel wiring of the model is the regenerated one: the start context is a child of the run context and
-`startInstances` is given (start, run); an out-of-ammo result cancels the START context only; the finish callback exists
+`startInstances` is given (start, run); an out-of-ammo result cancels the START context and nothing else, any other result cancels no context (it is ignored or reported); the finish callback exists
 for a shared RPS schedule only, fires when `Next()` has no token or `Left()` is 0, and cancels the START context only;
 the pool cancels the run context itself only when all instances have finished; `runNewInstance` / `newInstance` hand
 context and id on unchanged (the id is what the gun's `Bind` sees as `GunDeps.InstanceID`). -/
 theorem C12_wiring_is_source :
     Gen.Startup.startCtxParent = Ctx.run ∧ Gen.Startup.startInstancesCtxArgs = [Ctx.start, Ctx.run] ∧
     Gen.Startup.waiterSchedule = "p.StartupSchedule" ∧
-    (∀ sf ce, Gen.Startup.onInstanceResult true sf ce = if sf then [] else [PoolAct.cancel Ctx.start]) ∧
-    (∀ sf ce, PoolAct.cancel Ctx.run ∉ Gen.Startup.onInstanceResult false sf ce) ∧
+    (∀ ce, Gen.Startup.onInstanceResult true false ce = [PoolAct.cancel Ctx.start]) ∧
+    (∀ sf ce, ∀ a ∈ Gen.Startup.onInstanceResult true sf ce, a = PoolAct.cancel Ctx.start) ∧
+    (∀ sf ce, ∀ a ∈ Gen.Startup.onInstanceResult false sf ce, a = PoolAct.reportErr) ∧
     (∀ pi, Gen.Startup.callbackInstalled pi = !pi) ∧
     (∀ cd, Gen.Startup.onSharedRpsFinish cd = if cd Ctx.start then [] else [PoolAct.cancel Ctx.start]) ∧
     (∀ ok, Gen.Startup.callbackOnNext ok = !ok) ∧ (∀ l, Gen.Startup.callbackOnLeft l = (l == 0)) ∧
     Gen.Startup.runCancelCallers = ["checkAllInstancesAreFinished"] ∧
     (∀ cx id, Gen.Startup.runNewInstance cx id = (cx, id, cx)) ∧
     (∀ cx id, Gen.Startup.newInstance cx id = (cx, id, id)) := by
-  refine ⟨rfl, rfl, rfl, ?_, ?_, Bridge.C12Startup.callbackInstalled_eq, Bridge.C12Startup.onSharedRpsFinish_eq,
+  exact ⟨rfl, rfl, rfl, fun ce => (Bridge.C12Startup.onInstanceResult_spec false ce).1,
+    fun sf ce => (Bridge.C12Startup.onInstanceResult_spec sf ce).2.1,
+    fun sf ce => (Bridge.C12Startup.onInstanceResult_spec sf ce).2.2.1,
+    Bridge.C12Startup.callbackInstalled_eq, Bridge.C12Startup.onSharedRpsFinish_eq,
     fun _ => rfl, fun _ => rfl, rfl, fun _ _ => rfl, fun _ _ => rfl⟩
-  · intro sf ce; rw [Bridge.C12Startup.onInstanceResult_eq]; rfl
-  · intro sf ce; rw [Bridge.C12Startup.onInstanceResult_eq]
-    cases ce Ctx.run <;> simp
 
 /-- The exits of the regenerated `instance.Run` are the four `ExitReason`s: it returns the error of its loop body only as
 "out of ammo" after the provider refused it; it returns `ctx.Err()` only after a loop head at which its context (the
